@@ -333,7 +333,7 @@ Definition tr_citem (f : flags) (it : citem) : list item2 :=
    emitted in top-level mode.  (fixes/C21-empty-split-class.patch: when NO element stays inside
    the brackets the empty `[]` is not written.) *)
 Definition split_alt (f : flags) (it : citem) : re2 :=
-  match it with CIAtom a => tr_atom_top (mkFlags (fi f) (fm f) (fs f) (fU f) false (fa f)) a | _ => R2Err end.
+  match it with CIAtom a => tr_atom_top f a | _ => R2Err end.
 
 Fixpoint alts (l : list re2) : re2 :=
   match l with
@@ -440,3 +440,57 @@ Definition transpile (f : flags) (r : re) : re2 :=
 Definition transpile_text (f : flags) (r : re) : option (list Z) :=
   let t := transpile f r in
   if has_err t then None else Some (pr2 t).
+
+(* ---------------------------------------------------------------- predicates used by Props/C21.v *)
+
+(* some flag group of the tree switches extended mode on *)
+Fixpoint sets_x (r : re) : bool :=
+  match r with
+  | RConcat l => (fix go (l : list re) : bool := match l with [] => false | x :: t => sets_x x || go t end) l
+  | RUnion a b => sets_x a || sets_x b
+  | RGroup k body =>
+      (match k with GFlags st _ => fx st | _ => false end)
+      || match body with Some b => sets_x b | None => false end
+  | RQuant _ _ r0 => sets_x r0
+  | _ => false
+  end.
+
+(* some flag group mentions x at all (sets or unsets it) *)
+Fixpoint mentions_x (r : re) : bool :=
+  match r with
+  | RConcat l => (fix go (l : list re) : bool := match l with [] => false | x :: t => mentions_x x || go t end) l
+  | RUnion a b => mentions_x a || mentions_x b
+  | RGroup k body =>
+      (match k with GFlags st un => fx st || fx un | _ => false end)
+      || match body with Some b => mentions_x b | None => false end
+  | RQuant _ _ r0 => mentions_x r0
+  | _ => false
+  end.
+
+(* a `#` CharNode occurs outside character classes *)
+Fixpoint has_hash (r : re) : bool :=
+  match r with
+  | RAtom (AChar c) => c =? 35
+  | RConcat l => (fix go (l : list re) : bool := match l with [] => false | x :: t => has_hash x || go t end) l
+  | RUnion a b => has_hash a || has_hash b
+  | RGroup _ body => match body with Some b => has_hash b | None => false end
+  | RQuant _ _ r0 => has_hash r0
+  | _ => false
+  end.
+
+Definition is_ws (r : re) : bool := match r with RAtom (AChar c) => is_space c | _ => false end.
+
+(* "remove the whitespace first": drops whitespace CharNodes outside classes *)
+Fixpoint strip_ws (r : re) : re :=
+  match r with
+  | RAtom (AChar c) => if is_space c then RConcat [] else r
+  | RConcat l =>
+      RConcat ((fix go (l : list re) : list re :=
+                  match l with [] => [] | x :: t => if is_ws x then go t else strip_ws x :: go t end) l)
+  | RUnion a b => RUnion (strip_ws a) (strip_ws b)
+  | RGroup k body => RGroup k (match body with Some b => Some (strip_ws b) | None => None end)
+  | RQuant q alt r0 => RQuant q alt (strip_ws r0)
+  | _ => r
+  end.
+
+Definition set_x (f : flags) (b : bool) : flags := mkFlags (fi f) (fm f) (fs f) (fU f) b (fa f).
